@@ -726,6 +726,12 @@ TRANSLATED = [
     'pyramid/session.py:_CanonicalBase64Serializer.dumps',
     'pyramid/session.py:_CanonicalBase64Serializer.loads',
     'pyramid/session.py:SignedCookieSessionFactory',
+    # request plumbing (translate_factory.translate_plumbing)
+    'pyramid/request.py:CallbackMethodsMixin.response_callbacks',
+    'pyramid/request.py:CallbackMethodsMixin.add_response_callback',
+    'pyramid/request.py:CallbackMethodsMixin._process_response_callbacks',
+    'pyramid/request.py:Request.session',
+    'pyramid/router.py:Router.invoke_request',
 ]
 
 SESS = ('s0', 'SESSOBJ')
